@@ -460,26 +460,33 @@ func I6b(rc *RC) {
 		rc.S.Undec("I6b", "ndNext~ndPrevious", pos, "ndNext no longer has the statement skeleton the mirror map is written for (family rewritten): not compared")
 		return
 	}
-	// fold ndNext's local offset copy
-	var la []string
-	local := ""
-	for _, l := range strings.Split(a, "\n") {
-		t := strings.TrimSpace(l)
-		if m := regexp.MustCompile(`^(%\w+) = \$r\.nextIndex$`).FindStringSubmatch(t); m != nil && local == "" {
-			local = m[1]
-			continue
+	// fold a local copy of the offset (ndNext has one; ndPrevious may be given one)
+	fold := func(a string) string {
+		var la []string
+		local := ""
+		for _, l := range strings.Split(a, "\n") {
+			t := strings.TrimSpace(l)
+			if m := regexp.MustCompile(`^(%\w+) = \$r\.nextIndex$`).FindStringSubmatch(t); m != nil && local == "" {
+				local = m[1]
+				continue
+			}
+			if local != "" && t == "$r.nextIndex = "+local {
+				continue
+			}
+			la = append(la, l)
 		}
-		if local != "" && t == "$r.nextIndex = "+local {
-			continue
+		na := strings.Join(la, "\n")
+		if local != "" {
+			na = ir.ReplaceWord(na, local, "$r.nextIndex")
 		}
-		la = append(la, l)
+		return na
 	}
-	na := strings.Join(la, "\n")
-	if local != "" {
-		na = ir.ReplaceWord(na, local, "$r.nextIndex")
+	na := alphaNormKeepRecv(fold(a))
+	nb := alphaNormKeepRecv(fold(b))
+	if !sameSkeleton(na, nb) {
+		rc.S.Undec("I6b", "ndNext~ndPrevious", pos, "ndPrevious has another statement skeleton than ndNext (one of them was restructured): the mirror map, which is written line by line, does not apply - not compared")
+		return
 	}
-	na = alphaNormKeepRecv(na)
-	nb := alphaNormKeepRecv(b)
 	// mirror map applied to ndPrevious, line by line
 	idx := regexp.MustCompile(`\[(l\d+)\]`).FindStringSubmatch(nb)
 	if idx == nil {
